@@ -1,6 +1,8 @@
 (* one case per line:
      X <hex bytes | ->   extract_impl on the BYTES           -> N | S<hex label> | ! (panic) | F (fuel)
      Y <hex utf-8 | ->   extract_spec on the CODE POINTS     -> N | S<hex utf-8 of label>
+     A {<hex name> <hex value>} meta_arm on BYTES -> E<hex label> | D | !
+     B {<hex name> <hex value>} meta_label_spec on CODE POINTS -> E<hex> | D
    same protocol as harness/src/bin/meta.rs mode X *)
 let unhex s =
   if s = "-" then []
@@ -35,4 +37,21 @@ let () =
       print_endline (match extract_spec cs with
         | None -> "N"
         | Some l -> "S" ^ hex_of_ints (List.concat_map (fun c -> encode (int_of_n c)) l))
+    | "A" :: rest ->
+      (* A {<hex name> <hex value>} : the meta arm on the tag's attributes (bytes) -> E<hex label> | D | ! *)
+      let rec pairs = function
+        | n :: v :: t -> (List.map n_of_int (unhex n), List.map n_of_int (unhex v)) :: pairs t
+        | _ -> [] in
+      print_endline (match meta_arm (pairs rest) with
+        | AIndicator l -> "E" ^ hex_of_ints (List.map int_of_n l)
+        | ADone -> "D"
+        | APanic -> "!")
+    | "B" :: rest ->
+      (* B {<hex name> <hex value>} : meta_label_spec on the CODE POINTS -> E<hex utf-8 of label> | D *)
+      let rec pairs = function
+        | n :: v :: t -> (List.map n_of_int (decode (unhex n)), List.map n_of_int (decode (unhex v))) :: pairs t
+        | _ -> [] in
+      print_endline (match meta_label_spec (pairs rest) with
+        | Some l -> "E" ^ hex_of_ints (List.concat_map (fun c -> encode (int_of_n c)) l)
+        | None -> "D")
     | _ -> print_endline "?")
